@@ -19,6 +19,11 @@ def main():
     out = {"seed": sid, "property": prop, "ran": []}
     dest = os.path.join("/verif/seeded", sid)
     os.makedirs(dest, exist_ok=True)
+    if os.path.exists(os.path.join(dest, "meta.json")):
+        try:
+            out["note"] = json.load(open(os.path.join(dest, "meta.json"))).get("note", "")
+        except Exception:
+            pass
     patch = os.path.join(wt, "patch.diff")
     demo = os.path.join(wt, "tests", "seed_demo.rs")
     assert os.path.exists(patch) and os.path.exists(demo), "missing patch.diff or tests/seed_demo.rs"
